@@ -204,6 +204,11 @@ func (f *Flow) mkTerm(v ssa.Value) *Term {
 				if p, ok := fa.X.(*ssa.Parameter); ok {
 					return &Term{K: TLeaf, V: v, T: v.Type(), key: fmt.Sprintf("<fld:%s.%d>", p.Name(), fa.Field)}
 				}
+				// field of a by-value struct parameter read through its
+				// never-rewritten frame copy (value receiver)
+				if p, ok := spilledParam(fa.X); ok {
+					return &Term{K: TLeaf, V: v, T: v.Type(), key: fmt.Sprintf("<fld:%s.%d>", p.Name(), fa.Field)}
+				}
 			}
 			if g, ok := x.X.(*ssa.Global); ok {
 				if c, ok := f.w.globalInit(g); ok {
@@ -247,6 +252,11 @@ func (f *Flow) mkTerm(v ssa.Value) *Term {
 				keys = append(keys, ta.key)
 			}
 			return &Term{K: TPure, Name: name, Args: args, T: v.Type(), key: "pure:" + name + "(" + strings.Join(keys, ",") + ")"}
+		}
+		// table-driven classifier over a small domain (finfn.go): a function of its argument
+		if sc := c.StaticCallee(); sc != nil && !c.IsInvoke() && len(c.Args) == 1 && f.w.inPkg(sc) && f.w.finiteFn(sc) != nil {
+			a := f.term(c.Args[0])
+			return &Term{K: TPure, Name: "fin:" + name, Args: []*Term{a}, V: v, T: v.Type(), key: "fin:" + name + "(" + a.key + ")"}
 		}
 	case *ssa.Index:
 		if b, ok := x.X.Type().Underlying().(*types.Basic); ok && b.Info()&types.IsString != 0 {
@@ -455,6 +465,12 @@ func (f *Flow) evalStruct(t *Term, env Env, fl *evalFlags) ISet {
 			// a package-level lookup table that is constant after initialisation: the image of the index set
 			if img := constTableImage(strings.TrimPrefix(t.Name, "consttable:"), f.eval(t.Args[0], env, fl)); img != nil {
 				return img
+			}
+		case strings.HasPrefix(t.Name, "fin:"):
+			if sum := f.finCallee(t); sum != nil {
+				if r, ok := sum.image(f.finArgSet(t.Args[0], env)); ok && top != nil {
+					return r.Intersect(top)
+				}
 			}
 		case t.Name == "getTag":
 			fs := f.eval(t.Args[0], env, fl)
@@ -994,6 +1010,15 @@ func (f *Flow) assign(env Env, t *Term, s ISet) {
 		return
 	}
 	switch t.K {
+	case TPure:
+		// a fact about a classifier's result is a fact about its argument: the pre-image
+		if strings.HasPrefix(t.Name, "fin:") {
+			if sum := f.finCallee(t); sum != nil {
+				if cur := f.finArgSet(t.Args[0], env); cur != nil {
+					f.assign(env, t.Args[0], sum.preimage(cur, s))
+				}
+			}
+		}
 	case TConv:
 		// value-preserving on the operand's current set?
 		a, _ := f.Eval(t.A, env)
